@@ -221,6 +221,42 @@ fn k_exd_read_row_second_entry() {
     core::mem::forget(exd); core::mem::forget(exh);
 }
 
+
+//@unit props=C05 label=S tier=quick fn=exd::EXD::read_row bound="row at offset 0 with row_count 2, data_offset 4, schema of 1 String column at 0; one-character ASCII strings (symbolic) stored right behind each sub-row's fixed part" stubs=fmt::format
+//@desc string cells of sub-rows are resolved relative to their OWN sub-row (sub-row offset + data_offset + string offset), one record per sub-row
+#[kani::proof]
+#[kani::unwind(22)]
+#[kani::stub(alloc::fmt::format, stub_fmt)]
+fn k_exd_read_row_subrows_string() {
+    let mut arr = [0u8; 20];
+    arr[5] = 2; // row_count = 2 (big-endian u16 at 4)
+    let c: [u8; 2] = kani::any();
+    kani::assume(c[0] >= b'a' && c[0] <= b'z' && c[1] >= b'A' && c[1] <= b'Z');
+    // sub-row 0 at 6 + 2 = 8: string offset word 0 at 8..12, its string at 8 + 4 + 0 = 12
+    arr[12] = c[0]; arr[13] = 0;
+    // sub-row 1 at 6 + (4 + 2) + 2 = 14: string offset word 0 at 14..18, its string at 14 + 4 + 0 = 18
+    arr[18] = c[1]; arr[19] = 0;
+    let id: u32 = kani::any();
+    let exd = mk_exd(arr.to_vec(), vec![ExcelDataOffset { row_id: id, offset: 0 }]);
+    let exh = mk_exh(4, vec![ExcelColumnDefinition { data_type: ColumnDataType::String, offset: 0 }]);
+    match exd.read_row(&exh, id) {
+        Some(rows) => {
+            assert!(rows.len() == 2, "one record per stored sub-row");
+            match (&rows[0].data[0], &rows[1].data[0]) {
+                (ColumnData::String(a), ColumnData::String(b)) => {
+                    assert!(a.as_bytes().len() == 1 && a.as_bytes()[0] == c[0], "string of sub-row 0, relative to sub-row 0");
+                    assert!(b.as_bytes().len() == 1 && b.as_bytes()[0] == c[1], "string of sub-row 1, relative to sub-row 1");
+                }
+                _ => assert!(false, "cell types follow the schema"),
+            }
+            core::mem::forget(rows);
+        }
+        None => assert!(false, "known row id yields rows"),
+    }
+    kani::cover!(true, "reachable");
+    core::mem::forget(exd); core::mem::forget(exh);
+}
+
 fn be32(b: &[u8], o: usize) -> u32 { u32::from_be_bytes([b[o], b[o + 1], b[o + 2], b[o + 3]]) }
 fn be16(b: &[u8], o: usize) -> u16 { u16::from_be_bytes([b[o], b[o + 1]]) }
 
